@@ -36,6 +36,12 @@ class Check(CheckBase):
                 'nops': r.randint(8, 16) if quick else r.randint(8, 36),
                 'concurrent': r.choice([1, 2, 3, 5]),
             })
+        # deletes that remove ~1000 chunks at once (storage shards collide, batches are large)
+        for i in range(6 if quick else 60):
+            r = random.Random(f'C08/{self.seed}/big/{i}')
+            cases.append({'kind': 'big-delete', 'seed': r.randrange(1 << 30), 'flavour': 'async' if i % 2 else 'sync',
+                          'settings': gen.gen_settings(r, encrypted=(i % 3 != 2), chunker=(12, 12)),
+                          'concurrent': r.choice([1, 3, 5, 16])})
         return cases
 
     def worker_setup(self):
@@ -54,9 +60,51 @@ class Check(CheckBase):
             unmet.append('location builder/parser contract evaluated fewer than 1000 times')
         if c.get('other_family_images_compared', 0) < (20 if q else 400):
             unmet.append('too few before/after comparisons of other families')
+        if c.get('big_deletes', 0) < (8 if q else 80):
+            unmet.append('too few deletes of ~1000 chunks')
         return unmet
 
+    def _big_delete(self, case):
+        from .. import hist
+        r = random.Random(case['seed'])
+        enc = case['settings'].get('encryption') is not None
+        world = hist.World(case['seed'], case['settings'], case['flavour'], case['concurrent'],
+                           ['owner', ('shared', 0)] if enc else ['owner'], latency=False)
+
+        async def go():
+            await world.setup()
+            shared = r.randbytes(2400)
+            a = await world.snapshot('u0', {'big': r.randbytes(12_000), 'shared': shared})
+            b = await world.snapshot(sorted(world.users)[-1], {'other': r.randbytes(3_000), 'shared': shared})
+            for victim, user in ((a, 'u0'), (b, b.user)):
+                ref = world.users[victim.user].ref
+                doomed = {ref.chunk_loc(d) for d in victim.digests}
+                await world.delete(user, [victim.name])
+                world.count('deletes_checked')
+                world.count('big_deletes')
+                objects = world.store.snapshot_objects()
+                still = world.referenced_by_family(objects).get(world.users[user].family, set())
+                left = {l for l in doomed if l in objects and l not in still}
+                world.count('chunks_doomed', len(doomed))
+                if left:
+                    world.finding('C08', f'after a delete of {len(doomed)} chunks, {len(left)} chunk(s) referenced only by the deleted '
+                                         f'snapshot remain', chunks=sorted(left)[:3])
+                world.audit_integrity('C02')
+        try:
+            asyncio.run(go())
+        except Exception as e:
+            import traceback
+            world.finding('C08', f'history aborted by {type(e).__name__}: {e}', trace=traceback.format_exc()[-1500:])
+        finally:
+            world.close()
+        mine = world.take_findings(('C08',))
+        viol = [{'what': f['what'], 'mechanism': None, 'witness': dict(f['witness'], settings=case['settings'])} for f in mine[:3]]
+        return {'verdict': 'violated' if viol else 'held', 'classes': [f"big-delete|{'enc' if enc else 'plain'}|{case['flavour']}|c{case['concurrent']}"],
+                'counters': dict(world.counters), 'violations': viol}
+
     def run_case(self, case):
+        if case.get('kind') == 'big-delete':
+            return self._big_delete(case)
         from .. import hist, rep
         r = random.Random(case['seed'])
         enc = case['settings'].get('encryption') is not None
